@@ -85,22 +85,28 @@ void (*on_fatal)(const char *oracle, const char *detail) = nullptr;
 void (*on_sim_exit)(int code) = nullptr;
 
 // call chain of the trap, by exported symbol names (static functions show as '?'): identifies the failing site
-static std::string trap_site() {
-    void *bt[16];
-    int n = backtrace(bt, 16);
+std::string lib_call_chain() {
+    void *bt[24];
+    int n = backtrace(bt, 24);
     char **sym = backtrace_symbols(bt, n);
     std::string s;
     int shown = 0;
-    for (int i = 2; i < n && sym && shown < 6; i++) {
+    if (__real_getenv("XSIM_DBG_BT")) for (int i = 0; i < n && sym; i++) fprintf(stderr, "BT %d %s\n", i, sym[i]);
+    // the library frames start right after the seam (__wrap_<call>) through which the library entered the harness
+    bool seen_seam = false;
+    for (int i = 1; i < n && sym && shown < 6; i++) {
         const char *l = strchr(sym[i], '('), *r = l ? strchr(l, '+') : nullptr;
         std::string f = (l && r && r > l + 1) ? std::string(l + 1, r) : std::string("?");
-        if (f.compare(0, 6, "__wrap") == 0 || f.find("fatal_trap") != std::string::npos) continue;
-        if (f.compare(0, 2, "_Z") == 0) break;   // harness frames
+        bool seam = f.compare(0, 6, "__wrap") == 0;
+        if (!seen_seam) { seen_seam = seam; continue; }
+        if (seam) continue;
+        if (f.compare(0, 2, "_Z") == 0 || strstr(sym[i], "/lib/")) break;   // back in harness frames (the task body) or inside another library
         s += (shown++ ? " < " : "") + f;
     }
     free(sym);
     return s;
 }
+static std::string trap_site() { return lib_call_chain(); }
 
 static void fatal_trap(const char *oracle, const char *detail) {
     if (G) G->violation(oracle, "%s", detail);
